@@ -9,7 +9,7 @@ CONSTANTS KindsC,      \* e.g. <<"S", "S", "M">>
           MapFirstC,   \* first segment the mapper stage writes (WriteExecOut) = segment of the start block; ignored without map stage
           WorkersC,
           StartSegC,   \* segment of the request's start block
-          CacheMode    \* "empty" | "prefix" (snapshots form a prefix, outputs only where stores exist) | "any"
+          CacheMode    \* "empty" | "prefix" (snapshots form a prefix, outputs only where stores exist) | "partials" | "any"
 
 VARIABLES files,       \* set of [k, stage, seg]
           cached,      \* cached[stage+1]: segment END the in-memory store of the stage is synced to (-1 = empty / at init, -2 = none)
@@ -49,6 +49,8 @@ PrefixCache(F) ==
 InitialCaches ==
   IF CacheMode = "empty" THEN {{}}
   ELSE IF CacheMode = "prefix" THEN {F \in SUBSET AllFiles : PrefixCache(F)}
+  \* what a crash leaves on a cold cache before anything was merged: any subset of the partial files
+  ELSE IF CacheMode = "partials" THEN SUBSET {f \in AllFiles : f.k = "partial"}
   ELSE SUBSET AllFiles
 
 Init ==
@@ -172,7 +174,7 @@ MergeOnceInOrder ==
   \A i \in 1..NSt : \A a, b \in DOMAIN merged[i] : a < b => merged[i][a] < merged[i][b]
 WorkersConsistent ==
   \/ quit # ""
-  \/ (busy >= 0 /\ busy <= WorkersC /\ busy = Cardinality({c \in cmds : c.t = "Job"}) + Cardinality({m \in msgs : m.t = "JobSucceeded"}))
+  \/ (busy >= 0 /\ busy <= WorkersC /\ busy = Cardinality({c \in cmds : c.t = "Job"}) + Cardinality({m \in msgs : m.t \in {"JobSucceeded", "JobFailed"}}))
 Terminates == <>(quit # "")
 \* when the scheduler quits without error, every store is built up to the hand-off and every requested output is written
 OutcomeOK == quit = "ok" =>
